@@ -511,6 +511,53 @@ func c10UndeliverableScript(r *Rng) []c10Line {
 	return ls
 }
 
+// ---- repeat scripts: the SAME line two or three times in one session (independent of the seed) ----
+
+// c10RepeatScripts: a fixed set of histories, part of every run whatever the seed. Each takes a few
+// representative lines — abbreviated commands with an implied node count (top5, tree3, text2, top3),
+// commands with arguments, list/peek/traces/tags, built-ins — and issues every one of them 2–3 times with
+// other commands and assignments in between; each occurrence is probed against a fresh process, so
+// anything a line leaves behind for its own later occurrences (registered spellings, memo tables,
+// once-only notices) shows.
+func c10RepeatScripts() [][]c10Line {
+	groups := [][]string{
+		{"top5", "tree3", "peek main"},
+		{"top3", "text2", "traces"},
+		{"top2 -cum", "tree2 main", "list main"},
+		{"text5 lib|app", "top4 >rep.out", "tags"},
+		{"peek Alloc|Handle", "top 5", "dot3"},
+		{"traces main", "list Alloc", "top1"},
+		{"callgrind2", "raw", "o"},
+		{"tree5 -cum", "disasm main", "help top5"},
+	}
+	between := []string{"traces", "focus=main", "top", "focus=", "tree", "unit=ms", "tags", "nodecount=4", "peek .", "nodecount=-1", "granularity=lines", "granularity="}
+	var out [][]c10Line
+	for gi, g := range groups {
+		var ls []c10Line
+		add := func(t string) {
+			intent := "command"
+			if strings.Contains(t, "=") {
+				intent = "assign"
+			} else if t == "o" || strings.HasPrefix(t, "help") {
+				intent = "builtin"
+			}
+			ls = append(ls, c10Line{Text: t, Intent: intent})
+		}
+		k := gi * 3
+		for round := 0; round < 3; round++ {
+			for _, l := range g {
+				add(l)
+				if round < 2 {
+					add(between[k%len(between)])
+					k++
+				}
+			}
+		}
+		out = append(out, ls)
+	}
+	return out
+}
+
 // ---- file-reuse scripts: several reports written to the SAME file, long ones before short ones ----
 
 func c10FileReuseScript(r *Rng) []c10Line {
